@@ -378,11 +378,20 @@ theorem sub_reval (g : Nat → Nat → V → V) (x : Node K V) :
       obtain ⟨y, hy, rfl⟩ := ih c hc y' hs
       exact ⟨y, .kid hc hy, rfl⟩
 
+/-- every `Put` goroutine has returned (the readers may still be under way) -/
+def PutsDone (ops : List (Op K V)) (c : Config K V) : Prop :=
+  ∀ (j : Nat) k v, ops[j]? = some (.put k v) → ∃ pc, c.pcs[j]? = some pc ∧ pc.isDone = true
+
+theorem putsDone_of_terminal {t : Tree K V} {ops : List (Op K V)} {c : Config K V} (hi : CInv cmp t ops c)
+    (ht : Terminal cmp ops c) : PutsDone ops c := by
+  intro j k v hj
+  exact ⟨_, terminal_results hi ht j _ hj rfl, rfl⟩
+
 theorem final_rep {t : Tree K V} {ops : List (Op K V)} {puts : List (K × V)} (hs : Setup cmp t ops)
     (hput1 : ∀ (j : Nat) k v, ops[j]? = some (.put k v) → (k, v) ∈ puts)
     (hput2 : ∀ p ∈ puts, ∃ j : Nat, ops[j]? = some (.put p.1 p.2))
     (hdist : puts.Pairwise fun p q => cmp p.1 q.1 ≠ 0)
-    {c : Config K V} (hi : CInv cmp t ops c) (ht : Terminal cmp ops c) :
+    {c : Config K V} (hi : CInv cmp t ops c) (ht : PutsDone ops c) :
     Rep c.mem { t with root := reval (Gof cmp t.root puts) t.root } := by
   have hsd := slotsDistinct_of_keys hs.sw hs.nodup hdist
   refine ⟨by simp only [reval_id]; exact hi.frozen.root, hi.size, hi.gen, ?_⟩
@@ -400,8 +409,8 @@ theorem final_rep {t : Tree K V} {ops : List (Op K V)} {puts : List (K × V)} (h
   · by_cases h : ∃ p ∈ puts, slotOf cmp p.1 t.root = some (id, i)
     · obtain ⟨p, hp, hsl⟩ := h
       obtain ⟨j, hj⟩ := hput2 p hp
-      have hdone := terminal_results hi ht j _ hj
-      rw [hi.written j p.1 p.2 _ hj hdone rfl id i hsl, Gof_hit t.root id i puts _ hsd p hp hsl]
+      obtain ⟨pc, hpc, hdone⟩ := ht j _ _ hj
+      rw [hi.written j p.1 p.2 pc hj hpc hdone id i hsl, Gof_hit t.root id i puts _ hsd p hp hsl]
     · have hm : ∀ p ∈ puts, slotOf cmp p.1 t.root ≠ some (id, i) := fun p hp hsl => h ⟨p, hp, hsl⟩
       rw [Gof_miss t.root id i puts _ hm]
       apply hi.untouched _ hy i hlt
